@@ -3601,6 +3601,17 @@ static Token *function(Token *tok, Type *basety, VarAttr *attr) {
   if (consume(&tok, tok, ";"))
     return tok;
 
+  // A function declarator may be followed by further declarators:
+  // `double sin(double), cos(double), pi;`
+  if (equal(tok, ",")) {
+    tok = tok->next;
+    if (is_function(tok, basety))
+      return function(tok, basety, attr);
+    if (scope->next)
+      error_tok(tok, "a function declaration followed by an object declaration in a block is not supported");
+    return global_variable(tok, basety, attr);
+  }
+
   current_fn = fn;
   locals = NULL;
   enter_scope();
